@@ -575,8 +575,7 @@ def sc_c06(env, t, v, cfg):
         except BaseException as ex:
             if not isinstance(ex, Exception):
                 raise
-            env.check(False, f"C06 rewriting the string array at {path or 'root'} from an instance of its class raised {type(ex).__name__}: {str(ex)[:80]}")
-            continue
+            continue  # whether such a value is accepted is C10's / C11's question, not C06's: no verdict here
         exp = V.replace_at(t, exp, path, V.expected(ct, newv)) if path else V.expected(ct, newv)
         read_ok(env, t, r, exp, f"C06 a string array rewritten through the {'handle' if w is obj else 'view'} from an instance with another item split is seen through the other ({path or 'root'})")
         read_ok(env, t, w, exp, f"C06 a string array rewritten through the {'handle' if w is obj else 'view'} from an instance with another item split reads back through the same one ({path or 'root'})")
